@@ -80,6 +80,24 @@ def lean_sources_of(module, seen=None):
     return seen
 
 
+def lean_sources_of_generated(module, seen=None, acc=None):
+    """names of TeraModel.Generated.* modules a module imports (transitively through project files)"""
+    seen = seen if seen is not None else set()
+    acc = acc if acc is not None else set()
+    path = os.path.join(LEAN, module.replace(".", "/") + ".lean")
+    if module in seen:
+        return acc
+    seen.add(module)
+    if module.startswith("TeraModel.Generated."):
+        acc.add(module)
+        return acc
+    if not os.path.exists(path):
+        return acc
+    for m in re.findall(r"^import\s+(TeraModel\.[\w.]+)", open(path).read(), re.M):
+        lean_sources_of_generated(m, seen, acc)
+    return acc
+
+
 def theorems_of(module):
     path = os.path.join(LEAN, module.replace(".", "/") + ".lean")
     text = strip_comments(open(path).read())
@@ -97,8 +115,25 @@ def translate(pid, result):
     rc, out, dt = run([sys.executable, tr], cwd=VERIF, env={"VERIF_REPO": REPO}, timeout=120)
     result["translator_s"] = round(dt, 2)
     if rc != 0:
-        result["broken"].append({"what": "translator", "name": "translator/extract.py",
-                                 "detail": out[-1500:]})
+        # an extractor failed: this property is affected only if it imports one of that table's outputs
+        failed = re.findall(r"^TRANSLATOR-FAILED table=(\w+)", out, re.M)
+        mine = set()
+        for m in PROPS.get(pid, {}).get("lean_modules", []):
+            mine |= set(lean_sources_of_generated(m))
+        hit = []
+        for t in failed:
+            outs = []
+            try:
+                txt = open(os.path.join(VERIF, "translator", "tables", t + ".py")).read()
+                mo = re.search(r"^OUTPUTS\s*=\s*\[([^\]]*)\]", txt, re.M)
+                outs = re.findall(r"[\"']([\w.]+)\.lean[\"']", mo.group(1)) if mo else []
+            except Exception:  # noqa: BLE001
+                pass
+            if not outs or any(("TeraModel.Generated." + o) in mine for o in outs):
+                hit.append(t)
+        if hit or not failed or pid == "setup":
+            result["broken"].append({"what": "translator", "name": "translator/tables/" + ",".join(hit or ["?"]) + ".py",
+                                     "detail": out[-1500:]})
 
 
 def build_lean(pid, cfg, result):
